@@ -222,6 +222,89 @@ def hidden_state_rule(ctx, rule_id, roots, what, prop=None):
     ctx.end()
 
 
+def _identity_eq(fn):
+    """Is this __eq__/__ne__ the default comparison written out (`return self is other`, `return NotImplemented`, `id(self) == id(other)`)?"""
+    body = [b for b in fn.body if not (isinstance(b, ast.Expr) and isinstance(b.value, ast.Constant))]
+    if len(body) != 1 or not isinstance(body[0], ast.Return) or body[0].value is None:
+        return False
+    v = body[0].value
+    if isinstance(v, ast.Name) and v.id == "NotImplemented":
+        return True
+    if isinstance(v, ast.Compare) and len(v.ops) == 1:
+        a, b = v.left, v.comparators[0]
+        if isinstance(v.ops[0], (ast.Is, ast.IsNot)) and isinstance(a, ast.Name) and isinstance(b, ast.Name):
+            return True
+        def is_id(x):
+            return isinstance(x, ast.Call) and isinstance(x.func, ast.Name) and x.func.id == "id" and len(x.args) == 1 and isinstance(x.args[0], ast.Name)
+        if isinstance(v.ops[0], (ast.Eq, ast.NotEq)) and is_id(a) and is_id(b):
+            return True
+    return False
+
+
+def identity_rule(ctx, rule_id, roots, what):
+    """The simulator identifies model objects by *identity*: `x in list`, `list.remove(x)`, sets and dict keys of tasks, workers,
+    components ... (and so does this analysis).  A model class that defines its own equality (say, by ID) silently changes all of
+    these: two distinct objects with equal IDs -- a deep copy, the same ID given twice -- are then one object to every membership
+    test, de-duplication and removal.  Reported where the property's code performs such an operation on objects of that class."""
+    ctx.begin(rule_id, f"model objects are compared by identity in {what}", floor=1)
+    custom = {}
+    for cn in ctx.repo.model_classes:
+        ci = ctx.repo.classes[cn]
+        for m in ("__eq__", "__ne__"):
+            fn = ci.methods.get(m)
+            if fn is not None and not _identity_eq(fn.node):
+                custom[cn] = fn
+    ctx.instance("model-classes", cells=len(ctx.repo.model_classes), sample={"classes_with_own_equality": sorted(custom)})
+    if custom:
+        def hit(t):
+            """class with custom equality that a static type denotes (directly or as an element), else None"""
+            if not t:
+                return None
+            if t[0] == "obj":
+                return next((c for c in custom if t[1] == c or is_subclass(ctx, t[1], c) or is_subclass(ctx, c, t[1])), None)
+            if t[0] in ("list", "set", "tuple", "pair", "union", "dict"):
+                for x in t[1:]:
+                    if isinstance(x, tuple):
+                        r = hit(x)
+                        if r:
+                            return r
+            return None
+        for g in region(ctx, roots):
+            ft = ctx.types.ftypes(g)
+
+            def typed(e):
+                r = hit(ft.type_of(e))
+                if r is None and isinstance(e, (ast.List, ast.Tuple)):
+                    for x in e.elts:
+                        r = r or typed(x)
+                return r
+            for n in ast.walk(g.node):
+                site = None
+                if isinstance(n, ast.Compare):
+                    for op, a, b in zip(n.ops, [n.left] + n.comparators[:-1], n.comparators):
+                        if isinstance(op, (ast.In, ast.NotIn)) and (typed(a) or typed(b)):
+                            site = (typed(a) or typed(b), "membership test")
+                        elif isinstance(op, (ast.Eq, ast.NotEq)) and typed(a) and typed(b):
+                            site = (typed(a), "comparison")
+                elif isinstance(n, ast.Call) and isinstance(n.func, ast.Attribute) and n.func.attr in ("remove", "index", "count") and n.args and typed(n.args[0]):
+                    site = (typed(n.args[0]), f"`.{n.func.attr}()`")
+                elif isinstance(n, ast.Call) and isinstance(n.func, ast.Name) and n.func.id in ("set", "frozenset") and n.args and typed(n.args[0]):
+                    site = (typed(n.args[0]), "set of objects")
+                elif isinstance(n, ast.Call) and ast.unparse(n.func) == "dict.fromkeys" and n.args and typed(n.args[0]):
+                    site = (typed(n.args[0]), "dict keyed by objects")
+                elif isinstance(n, ast.SetComp) and typed(n.elt):
+                    site = (typed(n.elt), "set of objects")
+                elif isinstance(n, ast.Set) and any(typed(x) for x in n.elts):
+                    site = (next(typed(x) for x in n.elts if typed(x)), "set of objects")
+                if site:
+                    cn, kind = site
+                    fn = custom[cn]
+                    ctx.violation(f"custom-equality:{cn}@{g.qualname}", g.loc(n),
+                                  f"{g.qualname}: {kind} `{ast.unparse(n)[:60]}` on {cn} objects, but {cn} defines its own equality ({fn.loc()}): two distinct objects that compare "
+                                  f"equal (same ID: a copy, an ID given twice) are treated as one object here")
+    ctx.end()
+
+
 ORG = "BaseOrganization"
 SUBTASK = "BaseSubProjectTask"
 
